@@ -37,6 +37,7 @@ type cmdSpec struct {
 	Deprecated   bool       `json:"deprecated"`
 	Interspersed bool       `json:"interspersed"`
 	NoFlagParse  bool       `json:"disableFlagParsing"`
+	Whitelist    bool       `json:"whitelist"` // FParseErrWhitelist.UnknownFlags: the program tolerates unknown flags
 	Flags        []flagSpec `json:"flags"`
 	NPos         int        `json:"npos"`
 	PosAny       bool       `json:"posAny"`
@@ -84,6 +85,7 @@ func buildTree(spec treeSpec, rec *runRecord) []*cobra.Command {
 			c.Deprecated = "deprecated"
 		}
 		c.Flags().SetInterspersed(cs.Interspersed)
+		c.FParseErrWhitelist.UnknownFlags = cs.Whitelist
 		for _, fsp := range cs.Flags {
 			fs := c.Flags()
 			if fsp.Persistent {
@@ -100,6 +102,8 @@ func buildTree(spec treeSpec, rec *runRecord) []*cobra.Command {
 				fs.StringArrayP(fsp.Name, fsp.Short, nil, "usage "+fsp.Name)
 			case "ipNetSlice":
 				fs.IPNetSliceP(fsp.Name, fsp.Short, nil, "usage "+fsp.Name)
+			case "boolSlice":
+				fs.BoolSliceP(fsp.Name, fsp.Short, nil, "usage "+fsp.Name)
 			case "optString":
 				fs.StringP(fsp.Name, fsp.Short, "", "usage "+fsp.Name)
 				fs.Lookup(fsp.Name).NoOptDefVal = "dflt"
@@ -349,6 +353,9 @@ func runParse(raw json.RawMessage) interface{} {
 				if strings.Contains(rec.Err, "CIDR") {
 					rec = executeLine(in.Tree, append(line, "10.0.0.0/8")) // a value the flag's type accepts
 				}
+				if strings.Contains(rec.Err, "ParseBool") {
+					rec = executeLine(in.Tree, append(line, "true"))
+				}
 				withValue = true
 			}
 		} else {
@@ -388,7 +395,7 @@ func genTree(r *rng) treeSpec {
 				continue
 			}
 			usedName[name] = true
-			f := flagSpec{Name: name, Kind: pick(r, []string{"bool", "bool", "string", "string", "count", "stringSlice", "optString", "bool", "string", "stringSlice", "count", "optString", "stringArray", "ipNetSlice"})}
+			f := flagSpec{Name: name, Kind: pick(r, []string{"bool", "bool", "string", "string", "count", "stringSlice", "optString", "bool", "string", "stringSlice", "count", "optString", "stringArray", "ipNetSlice", "boolSlice"})}
 			f.Persistent = r.chance(25)
 			if f.Persistent {
 				// persistent flags live in a name space of their own (cobra panics when an inherited
@@ -457,7 +464,7 @@ func genLine(r *rng, t treeSpec) []string {
 	cur := 0
 	steps := r.intn(6)
 	takesValue := func(f flagSpec) bool {
-		return f.Kind == "string" || f.Kind == "stringSlice" || f.Kind == "stringArray" || f.Kind == "ipNetSlice"
+		return f.Kind == "string" || f.Kind == "stringSlice" || f.Kind == "stringArray" || f.Kind == "ipNetSlice" || f.Kind == "boolSlice"
 	}
 	for s := 0; s < steps; s++ {
 		fl := flagsOf(t, cur)
@@ -469,6 +476,14 @@ func genLine(r *rng, t treeSpec) []string {
 				// mostly values the flag accepts
 				v := pick(r, []string{"10.0.0.0/8", "10.1.0.0/16", "10.0.0.0/8", "v1"})
 				if r.chance(50) {
+					words = append(words, "--"+f.Name, v)
+				} else {
+					words = append(words, "--"+f.Name+"="+v)
+				}
+			case f.Kind == "boolSlice":
+				// mostly values the flag accepts
+				v := pick(r, []string{"true", "false", "true,false", "1", "maybe"})
+				if r.chance(60) {
 					words = append(words, "--"+f.Name, v)
 				} else {
 					words = append(words, "--"+f.Name+"="+v)
@@ -620,10 +635,38 @@ func genParseFork(r *rng, t treeSpec) parseIn {
 	return parseIn{Tree: t, Words: words}
 }
 
+// genParseUnknown: a program that tolerates unknown flags (FParseErrWhitelist.UnknownFlags): an unknown
+// flag takes the next word along unless that word looks like a flag, so what carapace counts as a
+// positional and what the parser does differ
+func genParseUnknown(r *rng, t treeSpec) parseIn {
+	for i := range t.Cmds {
+		t.Cmds[i].Whitelist = true
+	}
+	k := r.intn(len(t.Cmds))
+	t.Cmds[k].NoFlagParse = false
+	words := []string{}
+	for p := k; p > 0; p = t.Cmds[p].Parent {
+		words = append([]string{t.Cmds[p].Name}, words...)
+	}
+	for n := 1 + r.intn(2); n > 0; n-- {
+		words = append(words, pick(r, [][]string{{"--color", "always"}, {"--color=always"}, {"--color"}, {"-z"}, {"-z", "val"}, {"-zq", "val"}, {"-z=1"}, {"-z=1", "val"},
+			{"--color", "-z"}, {"--color", ""}, {"--color", "--", "x"}, {"pos"}, {"-z", "-"}})...)
+	}
+	ch := childrenOf(t, k)
+	cur := pick(r, []string{"", "", "", "-", "--", "x"})
+	if len(ch) > 0 && r.chance(30) {
+		cur = t.Cmds[pick(r, ch)].Name[:1]
+	}
+	return parseIn{Tree: t, Words: append(words, cur)}
+}
+
 func genParse(r *rng, tier string) interface{} {
 	t := genTree(r)
 	if r.chance(10) {
 		return genParseFork(r, t)
+	}
+	if r.chance(5) {
+		return genParseUnknown(r, t)
 	}
 	if r.chance(10) {
 		// a flag that sits in two mutually exclusive groups: another member of either group blocks it
